@@ -242,6 +242,196 @@ def f(x):
         else:
             os.environ['A'] = old
 '''),
+    ('class-based context manager, name passed as a literal, lookup through a helper', 'accept', ['A'], '''
+import os
+def _required(name):
+    try:
+        return os.environ[name]
+    except KeyError:
+        raise RuntimeError('{0} is not set'.format(name))
+class _without(object):
+    def __init__(self, name):
+        self.name = name
+        self.saved = None
+    def __enter__(self):
+        self.saved = _required(self.name)
+        del os.environ[self.name]
+        return self
+    def __exit__(self, exc_type, exc_value, traceback):
+        os.environ[self.name] = self.saved
+        return False
+def f(x):
+    with _without('A'):
+        d = _required('B')
+        return work(d, x)
+'''),
+    ('context manager whose __exit__ calls a collaborator before the restore', 'reject', ['A'], '''
+import os
+class _without(object):
+    def __init__(self, name, handle):
+        self.name = name
+        self.handle = handle
+        self.saved = None
+    def __enter__(self):
+        self.saved = os.environ.get(self.name)
+        os.environ.pop(self.name, None)
+    def __exit__(self, *exc):
+        self.handle.close()
+        if self.saved is not None:
+            os.environ[self.name] = self.saved
+def f(x, h):
+    with _without('A', h):
+        work(x)
+'''),
+    ('@contextmanager generator with try/finally', 'accept', ['A'], '''
+import os
+from contextlib import contextmanager
+@contextmanager
+def _set(name, value):
+    old = os.environ.get(name)
+    os.environ[name] = value
+    try:
+        yield
+    finally:
+        if old is None:
+            os.environ.pop(name, None)
+        else:
+            os.environ[name] = old
+def f(x):
+    with _set('A', str(x)):
+        work(x)
+'''),
+    ('@contextmanager generator without try/finally', 'reject', ['A'], '''
+import os
+import contextlib
+@contextlib.contextmanager
+def _set(name, value):
+    old = os.environ.get(name)
+    os.environ[name] = value
+    yield
+    if old is None:
+        os.environ.pop(name, None)
+    else:
+        os.environ[name] = old
+def f(x):
+    with _set('A', str(x)):
+        work(x)
+'''),
+    ('generator context manager that restores from a module-level table filled conditionally', 'reject', ['A'], '''
+import os
+from contextlib import contextmanager
+_hidden = dict()
+@contextmanager
+def _hide(name):
+    if name not in _hidden:
+        _hidden[name] = os.environ[name]
+    os.environ.pop(name, None)
+    try:
+        yield
+    finally:
+        os.environ[name] = _hidden[name]
+    del _hidden[name]
+def f(x):
+    with _hide('A'):
+        work(x)
+'''),
+    ('snapshot / restore helpers over a tuple of names, worker function', 'accept', ['A', 'B'], '''
+import os
+def _snapshot(names):
+    return [(name, os.environ.get(name)) for name in names]
+def _restore(snapshot):
+    for name, value in snapshot:
+        if value is not None:
+            os.environ[name] = value
+        elif name in os.environ:
+            del os.environ[name]
+    return
+def _work(x):
+    os.environ['A'] = x.a
+    os.environ['B'] = x.b
+    go(x)
+def f(x):
+    before = _snapshot(('A', 'B'))
+    try:
+        _work(x)
+    finally:
+        _restore(before)
+'''),
+    ('restore helper fed with something the translator cannot see through', 'unsupported', ['A'], '''
+import os
+def _restore(snapshot):
+    for name, value in snapshot:
+        if value is not None:
+            os.environ[name] = value
+def f(x):
+    before = x.snapshot()
+    try:
+        os.environ['A'] = x.a
+        go(x)
+    finally:
+        _restore(before)
+'''),
+    ('collaborator closed in the finally ahead of the restore', 'reject', ['A'], '''
+import os
+def f(x):
+    old = os.environ['A']
+    del os.environ['A']
+    h = None
+    try:
+        h = open(x)
+        work(h)
+    finally:
+        if h is not None:
+            h.close()
+        os.environ['A'] = old
+'''),
+    ('collaborator closed in the finally after the restore', 'accept', ['A'], '''
+import os
+def f(x):
+    old = os.environ['A']
+    del os.environ['A']
+    h = None
+    try:
+        h = open(x)
+        work(h)
+    finally:
+        os.environ['A'] = old
+        if h is not None:
+            h.close()
+'''),
+    ('the instance of an inlined context manager is used in the block', 'unsupported', ['A'], '''
+import os
+class _without(object):
+    def __init__(self, name):
+        self.name = name
+        self.saved = None
+    def __enter__(self):
+        self.saved = os.environ.get(self.name)
+        os.environ.pop(self.name, None)
+        return self
+    def __exit__(self, *exc):
+        if self.saved is not None:
+            os.environ[self.name] = self.saved
+def f(x):
+    with _without('A') as w:
+        work(x, w)
+'''),
+    ('value saved with a default that is not None', 'reject', ['A', 'B'], '''
+import os
+def f(x):
+    a = os.environ.get('A')
+    b = os.environ.get('B', a)
+    try:
+        os.environ['A'] = x
+        os.environ['B'] = x
+        work(x)
+    finally:
+        for name, value in (('A', a), ('B', b)):
+            if value is None:
+                os.environ.pop(name, None)
+            else:
+                os.environ[name] = value
+'''),
     ('from os import environ', 'accept', ['A'], '''
 from os import environ
 def f(x):
